@@ -15,6 +15,10 @@ var c05exprs = []string{"@", "@ + 1", "1 + @", `"a" + @`, "@ - 1", "@ * 2", "4 /
 var c05ctxs = []string{"<%= E %>", "<% E %>", "<% let q = E %>", "<% let q = 1 %><% q = E %>", "<%= if (E) { %>a<% } %>", "<%= if (f) { %>a<% } else if (E) { %>b<% } %>",
 	"<%= if (t) { %><%= E %><% } %>", "<%= if (f) { %>a<% } else { %><%= E %><% } %>", "<%= for (x) in E { %>a<% } %>", "<%= for (x) in xs { %><%= E %><% } %>", "<%= for (x) in xs { %><% if (E) { break } %>z<% } %>", "<%= for (x) in range(1, 3) { %><%= x %>-<%= E %><% } %>", "<%= for (x) in until(3) { %><%= x %><% if (x == 1) { %><%= E %><% } %><% } %>", "<%= for (g) in groupBy(1, xs) { %><%= E %><% } %>", "<%= for (k, v) in mi { %><%= E %><% } %>", "<%= for (x) in between(0, 3) { %>a<% E %>b<% } %>",
 	"<% let g2 = fn(a) { return E } %><%= g2(1) %>", "<%= blk() { %><%= E %><% } %>", `<%= htmlEscape("x") { %><%= E %><% } %>`, `<% contentFor("c") { %><%= E %><% } %>x<%= contentOf("c") %>`, `<%= contentOf("nope") { %><%= E %><% } %>`,
+	// a stored block that fails, replayed by a contentOf that carries a default block of its own (the default is for a
+	// name nobody defined, not for content that fails), and a default block that fails next to stored content that is fine
+	`<% contentFor("c2") { %><%= E %><% } %>x<%= contentOf("c2") { %>default<% } %>`, `<% contentFor("c3") { %>a<% E %>b<% } %><%= contentOf("c3", {w: 1}) { %><%= 1 %><% } %>`,
+	`<%= contentOf("nope2", {w: E}) { %>d<% } %>`, `<% contentFor("c4") { %>ok<% } %><%= contentOf("c4", {w: E}) { %>d<% } %>`,
 	"<%= blkctx({w: E}) { %>b<% } %>", `<%= partial("p.html", {who: E}) %>`, "<% return E %>", "text<%= E %>more", "<%= xs %><% E %>tail", `<%= for (x) in xs { %>a<% E %>b<% } %>`}
 
 // error types whose zero value is a perfectly good (non-nil) error
